@@ -10,6 +10,9 @@ pub mod c10;
 pub mod c11;
 pub mod c12;
 pub mod c13;
+pub mod c14;
+pub mod c15;
+pub mod proc_checks;
 pub mod common;
 
 use crate::runner::{Ctx, Tier, Verdict};
@@ -23,7 +26,7 @@ pub struct PropDef {
 }
 
 pub fn all() -> Vec<PropDef> {
-    vec![c01::def(), c02::def(), c03::def(), c04::def(), c05::def(), c06::def(), c07::def(), c09::def(), c10::def(), c11::def(), c12::def(), c13::def()]
+    vec![c01::def(), c02::def(), c03::def(), c04::def(), c05::def(), c06::def(), c07::def(), c09::def(), c10::def(), c11::def(), c12::def(), c13::def(), c14::def(), c15::def()]
 }
 
 pub fn find(id: &str) -> Option<PropDef> {
